@@ -105,6 +105,11 @@ func c16Executor(c *Ctx) {
 					okPayload = true
 				}
 			}
+			// the same event written out (or built by an inlined helper): {outer execution, er.Result, er.Error}
+			if a := l.Args[0]; !okPayload && a.Op == "struct" && len(a.Args) == 3 && a.Args[0] == outer &&
+				a.Args[1] == ev.LoadField(p.State, er, "Result") && a.Args[2] == ev.LoadField(p.State, er, "Error") {
+				okPayload = true
+			}
 			if !okPayload {
 				ok = false
 				c.Fail(name, pos, "a completion event must be built from the outer execution and the very result that is returned", pathTrace(ev, p))
@@ -124,7 +129,8 @@ func c16Executor(c *Ctx) {
 		c.Ok(name, pos, fmt.Sprintf("%d rows: OnSuccess ⇔ SuccessAll, OnFailure ⇔ ¬SuccessAll, OnDone always; once each when set; payload = (outer execution, returned result)", rows))
 	}
 	if ne := c.P.Func("failsafe.newExecutionDoneEvent"); ne == nil {
-		c.Unresolved("failsafe.newExecutionDoneEvent", "not found")
+		// no constructor helper: the payload check above has seen the event literal itself on every path
+		c.Ok("failsafe.newExecutionDoneEvent", "", "events are built in place (checked with the listener calls)")
 	} else {
 		ev := NewEvaluator(c.P, EvalConfig{})
 		good := true
@@ -270,7 +276,7 @@ func c16ListenerFields(c *Ctx) {
 			if s.rel != "" {
 				pkgName = s.rel
 			}
-			fr := FieldRef{Type: s.typ, Pkg: pkgName, Field: f.Name()}
+			fr := canonRef(FieldRef{Type: s.typ, Pkg: pkgName, Field: f.Name()})
 			ws := ix.Writers(fr)
 			okW := len(ws) >= 1
 			for _, w := range ws {
@@ -327,6 +333,7 @@ func c17Counters(c *Ctx) {
 	n := 0
 	ok := true
 	ix := BuildIndex(c.P)
+	leafFn := leafFunction(c)
 	for _, fn := range c.P.Funcs {
 		if fn.Pkg == nil || fn.Pkg.Pkg.Name() != "failsafe" {
 			continue
@@ -364,7 +371,8 @@ func c17Counters(c *Ctx) {
 				if readers[m] {
 					continue
 				}
-				if m != "Add" || !ix.WithinNames(fn, sortedKeys(allowed[field])...) {
+				inLeaf := field == "executions" && leafFn != nil && ix.Within(fn, func(f *ssa.Function) bool { return f == leafFn })
+				if m != "Add" || !(inLeaf || ix.WithinNames(fn, sortedKeys(allowed[field])...)) {
 					ok = false
 					c.Fail("failsafe.execution."+field, c.P.Pos(in.Pos()), fmt.Sprintf("%s.%s in %s: the counter may only be read, or bumped by Add(1) in %s", field, m, c.fn(fn), strings.Join(sortedKeys(allowed[field]), ", ")), "")
 					continue
@@ -564,7 +572,13 @@ func c17RecordCallers(c *Ctx) {
 	ix := BuildIndex(c.P)
 	rec := c.P.Func("failsafe.(*execution).record")
 	if rec == nil {
-		c.Unresolved("failsafe.(*execution).record", "not found")
+		// no record() helper: the counter is bumped where record() used to be called; C17.counters allows that bump
+		// only in the leaf and the leaf rule checks it happens once, after the user function
+		if leafFunction(c) != nil {
+			c.Ok("failsafe.(*execution).record#callers", "", "the executions counter is bumped in the leaf itself (no record() helper)")
+		} else {
+			c.Unresolved("failsafe.(*execution).record", "not found")
+		}
 		return
 	}
 	var ns []string
